@@ -211,6 +211,9 @@ func genBatch(o *emitter, u *Universe, present []int, size int, parallel bool, h
 				v = make([]byte, 32) // digest-sized values (a value may itself be a hash)
 			}
 			r.Read(v)
+			if r.Intn(7) == 0 {
+				v = []byte{} // EMPTY value: the key is present, its leaf commits to hash("")
+			}
 			ops = append(ops, op{k: k, val: v})
 		}
 	}
